@@ -10,6 +10,7 @@
   any per-group property that `ABG.new` establishes and `intersection` preserves (`SearchInv`, `search_inv`).
 -/
 import DisjointImpls.Lemmas.GroupLemmas
+import DisjointImpls.Lemmas.RowsOwn
 namespace DI
 
 /-! ## Part 1 — the candidate filter -/
@@ -306,5 +307,243 @@ theorem C11_readme_example_accepted :
 set_option maxRecDepth 1000000 in
 /-- the README example has no nested headers, so `C11_partition_partial` applies to it -/
 example : noNesting [Ex11.blockFor "GroupA", Ex11.blockFor "GroupB"] = true := by with_unfolding_all decide
+
+/-! ## Part 6 — rows hold each member's own bindings (`Lemmas/RowsOwn.lean`)
+
+  Vocabulary. `otherFold b` is the per-key fold of block `b`'s trait bounds (key ↦ row of bindings) that `intersection`
+  computes; `ABG.new` computes the same fold for the founding member (`C11_first_member_fold`).
+  `memberSubst env gid hdr` is the substitution with which `searchRec` lets a block with header `hdr` join the family
+  `gid` (`C11_memberSubst_spec`). `reexpr env gid i b k'` lists the re-expressions of member `i`'s own key `k'` over
+  the family's parameters: `[k']` for the founding member `i = 0`, `substituteBound σ k'` with `σ = memberSubst …` for
+  a later one (`C11_reexpr_first`, `C11_reexpr_later`). `sameKey k1 k2` (executable): same bounded type and same
+  dispatch key `keyOf` (C12) — the equivalence relation generated by the IndexMap look-up `keyEq`; it IS `keyEq`
+  whenever the trait path has a dispatch key at all (`C11_sameKey_keyEq`). All theorems hold for every accepted input,
+  no side conditions. -/
+
+/-- `ABG.new` (founding member) stores, key by key, exactly the fold `otherFold` that `intersection` computes for a
+    joining member, as one-row entries -/
+theorem C11_first_member_fold (b : Blk) : (ABG.new b).bounds = (otherFold b).map (fun e => (e.1, [e.2])) :=
+  new_eq_otherFold b
+
+/-- which substitution `memberSubst` is: the first entry `make_sets` recorded for the pair (family header, member
+    header), or — no entry, same header — the answer of the matcher on the header against itself -/
+theorem C11_memberSubst_spec (env : Env) (gid hdr : T) (σ : Subst) (h : memberSubst env gid hdr = some σ) :
+    (∃ e, (env.subsets.get gid).find? (fun e => e.1 == hdr) = some e ∧ e.2 = σ) ∨
+    ((env.subsets.get gid).find? (fun e => e.1 == hdr) = none ∧ gid = hdr ∧ ∃ l, sup gid gid = .yes σ l) := by
+  unfold memberSubst at h
+  split at h
+  · next e he => cases h; exact Or.inl ⟨e, he, rfl⟩
+  · next he =>
+    split at h
+    · next hc =>
+      have hc' := eq_of_beq hc
+      subst hc'
+      split at h
+      · next σ' l hs => cases h; exact Or.inr ⟨he, rfl, l, hs⟩
+      · cases h
+    · cases h
+
+theorem C11_reexpr_first (env : Env) (gid : T) (b : Blk) (k' : BKey) : reexpr env gid 0 b k' = [k'] := rfl
+
+theorem C11_reexpr_later (env : Env) (gid : T) (i : Nat) (b : Blk) (k' : BKey) (σ : Subst) (hi : i ≠ 0)
+    (h : memberSubst env gid (groupIdOf b.item) = some σ) :
+    reexpr env gid i b k' = substituteBound σ k'.1 k'.2 := by
+  simp [reexpr, hi, h]
+
+/-- for the founding member the two descriptions agree whenever the header matches itself with identity bindings
+    (`selfIdentity`, the usual case): re-expressing under the self-match substitution returns the key unchanged -/
+theorem C11_reexpr_first_selfIdentity (env : Env) (gid : T) (b : Blk) (k' : BKey) (σ : Subst) (l : Bool)
+    (hs : sup gid gid = .yes σ l) (hid : selfIdentity gid = true) :
+    reexpr env gid 0 b k' = substituteBound σ k'.1 k'.2 := by
+  have hσ : allIdentity σ = true := by
+    unfold selfIdentity at hid; rw [hs] at hid; exact hid
+  rw [substituteBound_identity σ hσ]; rfl
+
+/-- `sameKey` is an equivalence relation, contains `keyEq`, and equals `keyEq` on keys whose trait path has a
+    dispatch key (in particular on `wfPath` paths, C12) -/
+theorem C11_sameKey_keyEq (a b c : BKey) :
+    sameKey a a = true ∧ (sameKey a b = true → sameKey b a = true) ∧
+    (sameKey a b = true → sameKey b c = true → sameKey a c = true) ∧
+    (keyEq a b = true ↔ (sameKey a b = true ∧ (keyOf a.2).isSome = true)) ∧
+    (wfPath a.2 = true → sameKey a b = true → keyEq a b = true) :=
+  ⟨sameKey_refl a, sameKey_symm, sameKey_trans, keyEq_iff_sameKey a b, fun hw h => keyEq_of_sameKey_wf h hw⟩
+
+/-- ROWS HOLD EACH MEMBER'S OWN BINDINGS. In every family of an accepted grouping, row `i` of every dispatch key
+    `kr = (key, rows)` is the folded binding row of member `i` for one of ITS OWN bound keys `k'`
+    (`(k', r) ∈ otherFold b`), and the family's key is — up to `sameKey` — one of the re-expressions of `k'` over the
+    family's parameters under the substitution the search used for that member (`reexpr`; the key itself for the
+    founding member). When two keys of one joining block are re-expressed to `keyEq` keys, `insertKey` keeps the row
+    of the later one: `k'` is then that later key (hence `∃ k'`). -/
+theorem C11_rows_own_bindings (items : List T) (groups : Groups) (h : parseGroups items = .ok groups) :
+    ∀ e ∈ groups, ∀ kr ∈ e.2.1.bounds, ∀ (i : Nat) (b : Blk) (r : Row), e.2.2[i]? = some b → kr.2[i]? = some r →
+      ∃ k', (k', r) ∈ otherFold b ∧ ∃ sk ∈ reexpr (parseEnv items) e.1 i b k', sameKey sk kr.1 = true := by
+  intro e he kr hkr
+  exact ((parseGroups_rowsOwn h he).2.2 kr hkr).2.1
+
+/-- every dispatch key of every family of an accepted grouping has a dispatch key in the sense of C12 (`keyOf`):
+    its trait path has a last segment without parenthesized arguments, so `TraitBound::eq` can compare it (a key that
+    it cannot compare is never joined by a second member and, carrying no binding, is pruned) -/
+theorem C11_keys_have_dispatch_key (items : List T) (groups : Groups) (h : parseGroups items = .ok groups) :
+    ∀ e ∈ groups, ∀ kr ∈ e.2.1.bounds, (keyOf kr.1.2).isSome = true ∧ keyEq kr.1 kr.1 = true := by
+  intro e he kr hkr
+  have := parseGroups_keys_some h he kr hkr
+  exact ⟨this, (keyEq_iff_sameKey kr.1 kr.1).2 ⟨sameKey_refl _, this⟩⟩
+
+/-- … hence `C11_rows_own_bindings` holds with the IndexMap look-up equality `keyEq` itself -/
+theorem C11_rows_own_bindings_keyEq (items : List T) (groups : Groups) (h : parseGroups items = .ok groups) :
+    ∀ e ∈ groups, ∀ kr ∈ e.2.1.bounds,
+      ∀ (i : Nat) (b : Blk) (r : Row), e.2.2[i]? = some b → kr.2[i]? = some r →
+      ∃ k', (k', r) ∈ otherFold b ∧ ∃ sk ∈ reexpr (parseEnv items) e.1 i b k', keyEq sk kr.1 = true := by
+  intro e he kr hkr i b r hb hr
+  have hsome := (C11_keys_have_dispatch_key items groups h e he kr hkr).1
+  obtain ⟨k', hk', sk, hsk, hs⟩ := C11_rows_own_bindings items groups h e he kr hkr i b r hb hr
+  refine ⟨k', hk', sk, hsk, (keyEq_iff_sameKey sk kr.1).2 ⟨hs, ?_⟩⟩
+  have : keyOf sk.2 = keyOf kr.1.2 := by
+    simp only [sameKey, decide_eq_true_eq] at hs; exact hs.2
+  rw [this]; exact hsome
+
+/-- the stored key of every dispatch key entry is itself one of the re-expressions of an own key of some member
+    (the last member that joined: `intersection` stores the joining member's re-expressed key) -/
+theorem C11_stored_key_is_reexpression (items : List T) (groups : Groups) (h : parseGroups items = .ok groups) :
+    ∀ e ∈ groups, ∀ kr ∈ e.2.1.bounds, ∃ (i : Nat) (b : Blk) (k' : BKey) (r : Row),
+      e.2.2[i]? = some b ∧ (k', r) ∈ otherFold b ∧ kr.1 ∈ reexpr (parseEnv items) e.1 i b k' := by
+  intro e he kr hkr
+  exact ((parseGroups_rowsOwn h he).2.2 kr hkr).2.2
+
+/-- which members a family has: at least one; the founding member has the family's header; for every later member
+    the search had a substitution `σ` (recorded by `make_sets`, or the self-match), and its re-expressions are
+    `substituteBound σ` -/
+theorem C11_member_substitutions (items : List T) (groups : Groups) (h : parseGroups items = .ok groups) :
+    ∀ e ∈ groups, e.2.2 ≠ [] ∧ ∀ (i : Nat) (b : Blk), e.2.2[i]? = some b →
+      (i = 0 → groupIdOf b.item = e.1) ∧
+      (i ≠ 0 → ∃ σ, memberSubst (parseEnv items) e.1 (groupIdOf b.item) = some σ ∧
+        ∀ k', reexpr (parseEnv items) e.1 i b k' = substituteBound σ k'.1 k'.2) := by
+  intro e he
+  obtain ⟨h1, h2, _⟩ := parseGroups_rowsOwn h he
+  refine ⟨h1, fun i b hb => ⟨fun hi => ?_, fun hi => ?_⟩⟩
+  · have := h2 i b hb; rw [if_pos hi] at this; exact this
+  · have := h2 i b hb
+    rw [if_neg hi] at this
+    obtain ⟨σ, hσ⟩ := Option.isSome_iff_exists.1 this
+    exact ⟨σ, hσ, fun k' => C11_reexpr_later _ _ i b k' σ hi hσ⟩
+
+/-- the complementary clause: the family dispatches only on keys that EVERY member bounds — every member has a row
+    under every key, and it is its own -/
+theorem C11_every_member_bounds_every_key (items : List T) (groups : Groups) (h : parseGroups items = .ok groups) :
+    ∀ e ∈ groups, ∀ kr ∈ e.2.1.bounds, ∀ (i : Nat) (b : Blk), e.2.2[i]? = some b →
+      ∃ r k', kr.2[i]? = some r ∧ (k', r) ∈ otherFold b ∧
+        ∃ sk ∈ reexpr (parseEnv items) e.1 i b k', sameKey sk kr.1 = true := by
+  intro e he kr hkr i b hb
+  have hlen := C11_rows_aligned items groups h e he kr hkr
+  have hi : i < kr.2.length := by
+    rw [hlen]
+    rcases Nat.lt_or_ge i e.2.2.length with h1 | h1
+    · exact h1
+    · rw [List.getElem?_eq_none h1] at hb; cases hb
+  have hr : kr.2[i]? = some kr.2[i] := List.getElem?_eq_getElem hi
+  obtain ⟨k', hk', hsk⟩ := C11_rows_own_bindings items groups h e he kr hkr i b _ hb hr
+  exact ⟨_, k', hr, hk', hsk⟩
+
+/-- wildcards: the payload of member `i` under the key / associated type `(k, a)` of the family (`ABG.payloads`,
+    `ABG.idents`) is what the member's own folded row `r` — for one of its own keys re-expressed to `k` — binds `a`
+    to; so it is a wildcard (`none`) EXACTLY when that own row has no binding for `a` (`rowLookup r a = none`) -/
+theorem C11_payload_is_own_binding (items : List T) (groups : Groups) (h : parseGroups items = .ok groups) :
+    ∀ e ∈ groups, ∀ (i j : Nat) (ps : List (Option T)) (k : BKey) (a : String) (b : Blk),
+      e.2.1.payloads[i]? = some ps → e.2.1.idents[j]? = some (k, a) → e.2.2[i]? = some b →
+      ∃ k' r, (k', r) ∈ otherFold b ∧ (∃ sk ∈ reexpr (parseEnv items) e.1 i b k', keyEq sk k = true) ∧
+        ps[j]? = some (rowLookup r a) := by
+  intro e he i j ps k a b hp hx hb
+  obtain ⟨rows, hrows⟩ := idents_mem (List.mem_of_getElem? hx)
+  have hsome := parseGroups_keys_some h he (k, rows) hrows
+  obtain ⟨entry, hent, hcase⟩ := rowsOwn_payload (parseGroups_rowsOwn h he) hp hx hb
+  rcases hcase with ⟨hnone, _⟩ | ⟨k', r, hk', ⟨sk, hsk, hs⟩, hentry⟩
+  · simp only at hsome; rw [hsome] at hnone; cases hnone
+  · refine ⟨k', r, hk', ⟨sk, hsk, (keyEq_iff_sameKey sk k).2 ⟨hs, ?_⟩⟩, by rw [hent, hentry]⟩
+    have : keyOf sk.2 = keyOf k.2 := by
+      simp only [sameKey, decide_eq_true_eq] at hs; exact hs.2
+    rw [this]; exact hsome
+
+/-- every binding of a member's folded row is a binding the user wrote in one of that block's trait bounds with the
+    same dispatch key, and the keys of the fold are keys of the block's bounds: the rows contain nothing but the
+    member's own bindings -/
+theorem C11_fold_is_own (b : Blk) : ∀ e ∈ otherFold b,
+    (∃ rb ∈ b.raw, e.1 = (rb.bounded, rb.tr)) ∧
+    ∀ a p, rowLookup e.2 a = some p → ∃ rb ∈ b.raw, (a, p) ∈ rb.binds ∧ sameKey (rb.bounded, rb.tr) e.1 = true :=
+  otherFold_spec b
+
+namespace Ex11
+/-- an impl with a where-clause -/
+def implW (params : List T) (preds : List T) (self : T) : T :=
+  .node "ItemImpl" [] [attrs, leaf "None", leaf "None",
+    .node "Generics" [] [leaf "Some", .node "List" [] params, leaf "Some",
+      .node "Some" [] [.node "WhereClause" [] [.node "List" [] preds]]],
+    .node "Some" [] [.node "Tuple" [] [leaf "None", path [seg "Kita"]]], self, .node "List" [] []]
+/-- `bounded: bs` -/
+def pred (bounded : T) (bs : List T) : T :=
+  .node "WherePredicate::Type" [] [.node "PredicateType" [] [leaf "None", bounded, .node "List" [] bs]]
+/-- `impl<T: Dispatch<Group = GroupC>> Kita for T {}`  +
+    `impl<T> Kita for Vec<T> where T: Dispatch<Group = GroupA>, Vec<T>: Dispatch<Group = GroupB> {}` -/
+def itemsCollide : List T := [blockSelf "GroupC" tT,
+  implW [tyParam "T" []] [pred tT [traitBound (dispatch "GroupA")], pred (vecOf tT) [traitBound (dispatch "GroupB")]] (vecOf tT)]
+end Ex11
+
+/-- the second member (index 1) has two own keys, not `keyEq`, both re-expressed to a key of the family, and its row
+    under that key is the fold of the second of them only -/
+def rowCollision (items : List T) (gs : Groups) : Bool :=
+  gs.any (fun (e : T × ABG × List Blk) => e.2.1.bounds.any (fun (kr : BKey × List Row) =>
+    match e.2.2[1]?, kr.2[1]? with
+    | some b, some r =>
+      (otherFold b).any (fun (x1 : BKey × Row) => (otherFold b).any (fun (x2 : BKey × Row) =>
+        !keyEq x1.1 x2.1 && x1.2 != r && x2.2 == r &&
+        (reexpr (parseEnv items) e.1 1 b x1.1).any (fun sk => keyEq sk kr.1) &&
+        (reexpr (parseEnv items) e.1 1 b x2.1).any (fun sk => keyEq sk kr.1)))
+    | _, _ => false))
+
+set_option maxRecDepth 1000000 in
+/-- the `∃ k'` of `C11_rows_own_bindings` cannot be strengthened to "for every own key `k'` of the member whose
+    re-expression is the family's key, row `i` is the fold of `k'`": two different own keys of one joining member can be
+    re-expressed to the same key of the family, and `insertKey` then keeps the row of the later one only.
+    Witness (accepted, one family, two members): in `impl<T> Kita for Vec<T> where T: Dispatch<Group = GroupA>,
+    Vec<T>: Dispatch<Group = GroupB>` joining the family of `impl<T: Dispatch<Group = GroupC>> Kita for T` under
+    `σ = {T ↦ Vec<T>}`, the bound on `Vec<T>` is re-expressed to `T: Dispatch` (correct) and the bound on `T` — which is
+    outside the image of `σ` — is left as `T: Dispatch` too (finding D4, `C10_roundtrip_counterexample_untouched`); the
+    member's row is `Group = GroupB`, the binding `Group = GroupA` takes no part in the dispatch. -/
+theorem C11_rows_own_uniqueness_counterexample :
+    ∃ gs, parseGroups Ex11.itemsCollide = .ok gs ∧
+      (gs.map (fun (e : T × ABG × List Blk) => (e.2.2.length, e.2.1.bounds.map (fun kr => kr.2.length))) == [(2, [2])] &&
+       rowCollision Ex11.itemsCollide gs) = true :=
+  ParseResult.ok_of_check (f := fun gs =>
+    gs.map (fun (e : T × ABG × List Blk) => (e.2.2.length, e.2.1.bounds.map (fun kr => kr.2.length))) == [(2, [2])] &&
+    rowCollision Ex11.itemsCollide gs) (by with_unfolding_all decide)
+
+section RowsOwnExamples
+open Ex11
+set_option maxRecDepth 1000000
+
+/-- executable form of the conclusion of `C11_rows_own_bindings` (for the examples, and for the harness) -/
+def rowsOwnB (items : List T) (groups : Groups) : Bool :=
+  groups.all (fun e => e.2.1.bounds.all (fun kr => (List.range e.2.2.length).all (fun i =>
+    match e.2.2[i]?, kr.2[i]? with
+    | some b, some r => (otherFold b).any (fun kr' => kr'.2 == r &&
+        (reexpr (parseEnv items) e.1 i b kr'.1).any (fun sk => sameKey sk kr.1))
+    | _, _ => false)))
+
+/-- non-vacuity: the README pair (same header: the second member joins through the self-match) and a nested pair
+    `… for T` / `… for Vec<T>` (the second member joins through the substitution `make_sets` recorded) are accepted
+    as one family with two members and one key with two rows, and the conclusion — evaluated — holds with both
+    members' rows present -/
+theorem C11_rows_own_examples :
+    (match parseGroups [blockFor "GroupA", blockFor "GroupB"] with
+     | .ok gs => gs.map (fun (e : T × ABG × List Blk) => (e.2.2.length, e.2.1.bounds.map (fun kr => kr.2.length))) == [(2, [2])] &&
+         rowsOwnB [blockFor "GroupA", blockFor "GroupB"] gs
+     | _ => false) = true ∧
+    (match parseGroups [blockSelf "GroupA" tT, blockSelf "GroupB" (vecOf tT)] with
+     | .ok gs => gs.map (fun (e : T × ABG × List Blk) => (e.2.2.length, e.2.1.bounds.map (fun kr => kr.2.length))) == [(2, [2])] &&
+         rowsOwnB [blockSelf "GroupA" tT, blockSelf "GroupB" (vecOf tT)] gs &&
+         gs.all (fun e => e.2.2.all (fun b => groupIdOf b.item == e.1 ||
+           ((parseEnv [blockSelf "GroupA" tT, blockSelf "GroupB" (vecOf tT)]).subsets.get e.1).any (fun p => p.1 == groupIdOf b.item)))
+     | _ => false) = true := by
+  constructor <;> with_unfolding_all decide
+end RowsOwnExamples
 
 end DI
